@@ -164,7 +164,8 @@ impl LazyRaw {
         let parsed = Box::into_raw(Box::new(v));
         match self
             .parsed
-            .compare_exchange_weak(ptr, parsed, Ordering::AcqRel, Ordering::Acquire)
+            // strong: a spurious failure would hand back a null pointer below
+            .compare_exchange(ptr, parsed, Ordering::AcqRel, Ordering::Acquire)
         {
             // will free by drop
             Ok(_) => Ok(unsafe { &*parsed }),
